@@ -62,3 +62,20 @@ Theorem C04_history_atomic : forall h d0,
   history d0 h -> all_atomic d0 h.
 Proof. exact SyncProto_proofs.history_atomic. Qed.
 Print Assumptions C04_history_atomic.
+
+(* ------------------------------------------------------------------------------------------ *)
+(* the rollback log (RbProto.v): old range or new range completely present in every power-loss   *)
+(* image of every cut of every trace accepted by the monitor                                     *)
+From Nomt Require RbProto RbProto_proofs.
+
+Theorem C04_rollback_log_atomic : forall I d0 tr,
+  RbProto.rb_inst_okb I = true -> RbProto.rb_start_okb I d0 = true -> RbProto.rb_discipline I d0 tr = true ->
+  forall n img, RbProto.rb_pl_image (RbProto.rb_run d0 (firstn n tr)) img ->
+    (RbProto.i_new img = false ->
+       RbProto.rb_recover (RbProto.o_recs I) (RbProto.o_start I) (RbProto.o_end I) img = true) /\
+    (RbProto.i_new img = true ->
+       RbProto.rb_recover (RbProto.rb_new_recs I tr) (RbProto.n_start I) (RbProto.n_end I) img = true) /\
+    (forall iw, RbProto.index_of RbProto.is_meta_write tr = Some iw -> n <= iw -> RbProto.i_new img = false) /\
+    (forall is_, RbProto.index_of RbProto.is_meta_sync tr = Some is_ -> is_ < n -> RbProto.i_new img = true).
+Proof. exact RbProto_proofs.rb_powerloss_atomic. Qed.
+Print Assumptions C04_rollback_log_atomic.
